@@ -8,7 +8,7 @@ import re
 from harness import core, htmlnorm, treegen, trees, xdoc
 
 GEN = ['gen_tables', 'gen_regex', 'gen_config', 'gen_escapes', 'gen_core']
-THEOREMS = ['C03_link_in_sentence', 'C03_fragment_link_instance', 'C03_fragment_seq_document', 'C03_fragment_seq_html', 'C03_fragment_lists_instance', 'C03_fragment_inert_instance', 'C03_fragment_emphasis_instance', 'C03_fragment_rules_instance', 'C03_thematic_break', 'C03_thematic_configs', 'C03_setext_heading', 'C03_setext_hypotheses', 'C03_indented_code_block', 'C03_indented_code_hypotheses', 'C03_link_scanners_are_the_source', 'C03_fragment_parses', 'C03_fragment_token_tree', 'C03_fragment_hypotheses', 'C03_fragment_fuel_suffices', 'C03_fragment_document',
+THEOREMS = ['C03_link_phrases', 'C03_link_phrases_instance', 'C03_link_in_sentence', 'C03_fragment_link_instance', 'C03_fragment_seq_document', 'C03_fragment_seq_html', 'C03_fragment_lists_instance', 'C03_fragment_inert_instance', 'C03_fragment_emphasis_instance', 'C03_fragment_rules_instance', 'C03_thematic_break', 'C03_thematic_configs', 'C03_setext_heading', 'C03_setext_hypotheses', 'C03_indented_code_block', 'C03_indented_code_hypotheses', 'C03_link_scanners_are_the_source', 'C03_fragment_parses', 'C03_fragment_token_tree', 'C03_fragment_hypotheses', 'C03_fragment_fuel_suffices', 'C03_fragment_document',
             'C03_fragment_html', 'C03_fragment_markdown_html', 'C03_fragment_html_instance', 'C03_fragment_paragraph_lines_instance', 'C03_fragment_headings_instance', 'C03_outline_lists', 'C03_outline_html', 'C03_outline_instance',
             'C03_fragment_document_markdown', 'C03_fragment_document_configs', 'C03_bounded_trees', 'C03_family_is_not_vacuous']
 TRUSTED = ['harness/treegen.py: the tree grammar, the speller (every free choice drawn and counted) and the direct HTML writer - the independent oracle; '
@@ -463,6 +463,14 @@ def setext_worker(seed):
     return text, got == want, got, want
 
 
+def markdown_worker(text):
+    import mistletoe
+    try:
+        return mistletoe.markdown(text)
+    except Exception as e:
+        return 'EXC %s: %s' % (type(e).__name__, e)
+
+
 def frag_worker(args):
     seed, depth = args
     rng = random.Random(seed)
@@ -565,6 +573,32 @@ def run(ctx, only=None):
                 if not wf or mtext != text or ''.join(l[2:] + '\n' for l in text.split('\n')[:-1]) != frag_doc_text(t[1]):
                     ctx.disagreements.append({'interface': 'X-hyp(fragment)', 'input': {'text': text, 'seed': seed, 'depth': depth},
                                               'model': 'wf_b = %s, spelled text %r' % (wf, mtext), 'impl': 'a tree of the fragment by the harness generator, spelled %r' % text})
+    # the class of C03_link_phrases on the implementation: one sentence with any number of inline links
+    from urllib.parse import quote
+    escq = lambda x: x.replace('&', '&amp;').replace('<', '&lt;').replace('>', '&gt;').replace('"', '&quot;')
+    ljobs = []
+    for _ in range(400 if ctx.quick() else 8000):
+        t0 = rng.choice(['', 'see ', 'a: ', '(', 'x ', 'so, '])
+        text, exp = t0, escq(t0)
+        for _i in range(rng.randint(1, 5)):
+            w = ' '.join(rng.choice(EM_INNER) for _ in range(rng.randint(1, 3)))
+            d = rng.choice(LINK_DESTS)
+            t = rng.choice(['', ' ', ' and ', ', ', '. ', ')', ' (x) ', '; then '])
+            text += '[' + w + '](' + d + ')' + t
+            exp += '<a href="%s">%s</a>' % (html_mod.escape(quote(d, safe='/#:()*?=%@+,&;')), escq(w)) + escq(t)
+        text = text.rstrip(' ')
+        exp = exp.rstrip(' ')
+        if text[0] in ' ' or not text:
+            continue
+        ljobs.append((text + '\n', '<p>' + exp + '</p>\n'))
+    with mp.Pool(core.NPROC) as pool:
+        lres = pool.map(markdown_worker, [t for t, _ in ljobs], chunksize=50)
+    for (text, want), got in zip(ljobs, lres):
+        ctx.count('evaluations')
+        ctx.count('link_sentences')
+        if got != want:
+            ctx.failing.append({'interface': 'oracle(link sentence)', 'input': {'text': text}, 'what': 'a sentence with several inline links is not its text with one link per [text](destination)',
+                                'observed': got, 'expected': want, 'kf': None})
     # the outline lists of the second unbounded theorem, on the implementation
     ojobs = [rng.randint(0, 2 ** 40) for _ in range(800 if ctx.quick() else 20000)]
     with mp.Pool(core.NPROC) as pool:
